@@ -48,6 +48,14 @@ type PropDef struct {
 	TrustedBase []string `json:"trusted_base"`
 	NotCovered  []string `json:"not_covered"`
 	Bounded     []string `json:"bounded_standins"`
+	// BoundedTests: bounded stand-ins run on the real code (never counted as proved): a Go test file under /verif
+	// (test function TestGvcReplay, failures print REPLAY-POST-FALSE) injected into package dir Pkg with go test -overlay.
+	BoundedTests []struct {
+		Name  string `json:"name"`
+		File  string `json:"file"`
+		Pkg   string `json:"pkg"`
+		Bound string `json:"bound"`
+	} `json:"bounded_tests"`
 	MaxAssumes  int      `json:"max_assumes"`
 }
 
@@ -528,6 +536,33 @@ func runCheck(args []string) int {
 			exit = 1
 		}
 	}
+	// bounded stand-ins (labelled bounded; a pass is reported in the evidence, never among the discharged obligations)
+	boundedReport := append([]string{}, pd.Bounded...)
+	for _, bt := range pd.BoundedTests {
+		src, err := os.ReadFile(filepath.Join(verif, bt.File))
+		if err != nil {
+			fmt.Println("BROKEN-MACHINERY bounded stand-in missing:", err)
+			exit = 2
+			continue
+		}
+		out, _ := runOverlayTest(repo, filepath.Join(repo, bt.Pkg), string(src))
+		if strings.Contains(out, "REPLAY-POST-FALSE") || strings.Contains(out, "panic:") {
+			violations++
+			path := filepath.Join(replayDir, sanitizeFile("bounded_"+bt.Name)+".replay")
+			os.WriteFile(path, []byte(fmt.Sprintf("bounded stand-in %s (%s) FAILED on the real code\n--- replay test (package %s, injected with go test -overlay) ---\n%s\n--- replay output ---\n%s\n", bt.Name, bt.Bound, modPath+"/"+bt.Pkg, string(src), out)), 0o644)
+			fmt.Printf("FAILED-BOUNDED %s\n", bt.Name)
+			fmt.Printf("VIOLATION property=%s replay=%s\n", pd.ID, path)
+			if exit == 0 {
+				exit = 1
+			}
+			boundedReport = append(boundedReport, "BOUNDED "+bt.Name+": FAILED ("+bt.Bound+")")
+		} else if !strings.Contains(out, "ok") && !strings.Contains(out, "PASS") {
+			fmt.Println("BROKEN-MACHINERY bounded stand-in did not run:", strings.TrimSpace(out))
+			exit = 2
+		} else {
+			boundedReport = append(boundedReport, "BOUNDED (not a proof) "+bt.Name+": passed; bound: "+bt.Bound)
+		}
+	}
 	// evidence
 	var samples []interface{}
 	for i, o := range all {
@@ -586,7 +621,7 @@ func runCheck(args []string) int {
 			"listed_functions_missing": listMissing,
 			"assume_clauses":           nAssume,
 			"not_covered":              pd.NotCovered,
-			"bounded_standins":         pd.Bounded,
+			"bounded_standins":         boundedReport,
 			"all_obligations":          all,
 			"explanation":              "every obligation is one SMT query generated from the SSA of /repo's working tree and the contracts in */zz_contracts_verif.go; unsat = discharged for all inputs and all iterations (loops via invariants, no unrolling)",
 		},
